@@ -57,7 +57,7 @@ class Prop(BaseProp):
     HEADLINE = ["ctest_checked", "cmaketest_checked", "args_equal_to_name", "sections_checked"]
 
     def n_cases(self, tier):
-        return 1200 if tier == "quick" else 30000
+        return 8000 if tier == "quick" else 120000
 
     def setup_worker(self):
         runner.cminx()
